@@ -31,7 +31,7 @@ def describe(tier, seed):
                 'of the library (10 pre steps: the conversion / CSV / parameter tools, ipm_info, a custom-configuration '
                 'codec call, dumps of the same dict twice, a failing decode) singly and in every ordered pair before a '
                 'message using PDS, ICC, DE43 and typed fields under the default configuration, and A,B,A,.. '
-                'alternations of configurations / codecs / bitmap renderings on every element. Oracle: loads(dumps(copy)) has every '
+                'alternations of configurations / codecs / bitmap renderings on every element; the package default configuration REPLACED by another one between calls that pass no iso_config. Also: a configuration of wide elements (FIXED text of 1002..2000 characters, 30/60-digit numbers, 31/40-digit decimals, entries without field_name); numbers and decimals handed over as text (plain, zero-filled, with surplus leading zeros); every message encoded a second time with its keys inserted in reverse order (same bytes required); calls made with keyword options, positionally, and with the codec named by a registered alias, by turns. Oracle: loads(dumps(copy)) has every '
                 'original key with an equal value (masked / prefix for PAN processors) and only documented extras. '
                 'A case is distinct by (cfg, codec, bitmap, element variants); non-trivial when it carries at least '
                 'one element.' % len(combos),
